@@ -65,6 +65,7 @@ class Pool:
             for w, raw in zero_raw.items():
                 self.weapons[w].zero_elevation = U.Radian(raw)
         self.calcs = {c: m.Calculator(_config=dict(cfg)) for c, cfg in CFG.items()}
+        self.kept = []        # (re-fingerprinting closure over a RESULT object handed out earlier, what it was)
 
     def redisplay(self, sname, salt):
         """re-display every quantity reachable from shot `sname` in another unit of its dimension, switch the preferences"""
@@ -162,6 +163,7 @@ def do_op(pool: Pool, e):
         if a == "Fire":
             kw = {"plain": {}, "extra": {"extra_data": True}, "timed": {"time_step": 0.05}}[e["arg"]]
             hr = calc.fire(shot, U.Foot(600), U.Foot(100), **kw)
+            pool.kept.append((lambda hr=hr: ("Fire", tuple(scen.row_fp(r) for r in hr.trajectory)), "Fire"))
             return ("Fire", tuple(scen.row_fp(r) for r in hr.trajectory))
         if a == "FireRaises":
             hr = calc.fire(shot, U.Foot(60000), U.Foot(6000))
@@ -175,13 +177,31 @@ def do_op(pool: Pool, e):
         if a == "Danger":
             hr = calc.fire(shot, U.Foot(900), U.Foot(30), extra_data=True)
             d = hr.danger_space(U.Foot(500), U.Foot(2), U.Degree(0))
+            pool.kept.append((lambda d=d: ("Danger", scen.row_fp(d.begin), scen.row_fp(d.end), scen.row_fp(d.at_range)), "Danger"))
             return ("Danger", scen.row_fp(d.begin), scen.row_fp(d.end), scen.row_fp(d.at_range))
     except m.RangeError as x:
-        return (a + ":RangeError", x.reason, tuple(scen.row_fp(r) for r in x.incomplete_trajectory),
-                None if x.last_distance is None else float(x.last_distance.raw_value).hex())
+        fpx = lambda x=x: (a + ":RangeError", x.reason, tuple(scen.row_fp(r) for r in x.incomplete_trajectory),
+                           None if x.last_distance is None else float(x.last_distance.raw_value).hex())
+        pool.kept.append((fpx, a + ":RangeError"))
+        return fpx()
     except m.ZeroFindingError as x:
         return (a + ":ZeroFindingError", float(x.zero_finding_error).hex(), x.iterations_count)
     raise core.MachineryError(f"unknown operation {a}")
+
+
+def results_stable(chk, pool, b):
+    """results handed out earlier (trajectories, danger spaces, the partial trajectory attached to a range error) still say
+    what they said when they were returned: a later computation must not write into them"""
+    for ent in pool.kept:
+        if len(ent) != 4:
+            continue
+        refp, what, fp_then, step = ent
+        now = impl.outcome(refp)
+        chk.count(1)
+        chk.stratum("earlier_results_rechecked")
+        if now[0] != "ok" or now[1] != fp_then:
+            chk.violation("C10.EarlierResultChanged", {"result_of": what, "later_ops": "/".join(x["a"] for x in b[step + 1:][:3])},
+                          {"history": b, "step": step})
 
 
 def replay_sessions(chk, behs):
@@ -196,7 +216,10 @@ def replay_sessions(chk, behs):
             zr = pool.zero_raw()
             ct = dict(pool.content)
             key_or = (e["a"], e["c"], e["s"], e["arg"], float(zr[pool.weapon_of.get(e["s"], "w1")]).hex(), tuple(sorted(ct.items())))
+            nk = len(pool.kept)
             o = impl.outcome(do_op, pool, e)
+            if o[0] == "ok" and len(pool.kept) > nk:
+                pool.kept[-1] = (pool.kept[-1][0], pool.kept[-1][1], o[1], step)
             chk.count(1, (bi, step) if step >= 1 else None)
             chk.stratum("op_" + e["a"])
             k = {"op": e["a"], "calc": e["c"], "shot": e["s"], "arg": e["arg"], "after": "/".join(sig[:-1][-2:])}
@@ -236,6 +259,7 @@ def replay_sessions(chk, behs):
             if e["zeroChanged"]:
                 chk.stratum("zero_written")
             snap = new
+        results_stable(chk, pool, b)
         chk.traces += 1
     bad = tables.check_shipped()
     if bad:
@@ -489,7 +513,7 @@ def run(chk: core.Check, replay=None) -> None:
     chk.sample({"history": behs[0]})
     threads_part(chk, thorough, rng)
     chk.require_strata(["op_Fire", "op_FireRaises", "op_Zero", "op_ZeroRaises", "op_Danger", "op_Build", "op_EditTable", "op_FireBadTable",
-                        "table_edited_in_place", "edit_kind_table", "edit_kind_powder", "edit_kind_dims", "edit_between_computations_on_one_calculator", "quantities_redisplayed_and_preferences_switched", "zero_written", "schedule", "schedule_equal_configurations", "schedule_different_configurations",
+                        "earlier_results_rechecked", "table_edited_in_place", "edit_kind_table", "edit_kind_powder", "edit_kind_dims", "edit_between_computations_on_one_calculator", "quantities_redisplayed_and_preferences_switched", "zero_written", "schedule", "schedule_equal_configurations", "schedule_different_configurations",
                         "free_running"])
     chk.exhaustive = False
     chk.rule.append("TLC-simulated session histories of 6 operations over 3 shots (shared weapon / shared ammunition, with and without "
